@@ -22,6 +22,7 @@ import (
 	"time"
 
 	simplefixgo "github.com/b2broker/simplefix-go"
+	fixgen "github.com/b2broker/simplefix-go/tests/fix44"
 	"github.com/b2broker/simplefix-go/utils"
 
 	"verifharness/hout"
@@ -201,6 +202,133 @@ func chunking(r *rand.Rand, stream []byte) [][]byte {
 
 // ---------------------------------------------------------------- C04 frame mode
 
+// simulCase (C04): several connections already waiting on the listener when the acceptor starts accepting: each
+// connection's messages must reach exactly one handler, complete and in order, and what that handler sends must
+// come out of that connection
+func simulCase(r *rand.Rand, o *hout.Out, idx int) {
+	buf := []int{0, 1, 10}[r.Intn(3)]
+	nconn := 2 + r.Intn(3)
+	lst := newPipeListener()
+	fac := &recFactory{buf: buf, ch: make(chan *recHandler, 16)}
+	acc := simplefixgo.NewAcceptor(lst, fac, time.Second, nil)
+	type cc struct {
+		msgs [][]byte
+		peer net.Conn
+	}
+	var cs []*cc
+	for ci := 0; ci < nconn; ci++ {
+		c := &cc{}
+		for i := 0; i < 2+r.Intn(5); i++ {
+			c.msgs = append(c.msgs, frame(fmt.Sprintf("35=D\x0111=c%d-%d-%d\x01", idx, ci, i)))
+		}
+		a, b := net.Pipe()
+		c.peer = b
+		lst.conns <- a // queued before anybody accepts
+		cs = append(cs, c)
+	}
+	go func() { _ = acc.ListenAndServe() }()
+	var hs []*recHandler
+	for len(hs) < nconn {
+		select {
+		case h := <-fac.ch:
+			hs = append(hs, h)
+		case <-time.After(2 * time.Second):
+			o.Fail("C04", "simultaneous-connections-not-all-served", fmt.Sprintf("case %d: %d connections queued, %d handlers made", idx, nconn, len(hs)))
+			acc.Close()
+			return
+		}
+	}
+	var wg sync.WaitGroup
+	for _, c := range cs {
+		c := c
+		wg.Add(1)
+		go func() {
+			defer wg.Done()
+			_ = c.peer.SetWriteDeadline(time.Now().Add(2 * time.Second))
+			for _, m := range c.msgs {
+				if _, err := c.peer.Write(m); err != nil {
+					return
+				}
+			}
+		}()
+	}
+	wg.Wait()
+	deadline := time.Now().Add(2 * time.Second)
+	total := func() (n int) {
+		for _, h := range hs {
+			n += len(h.snapshot())
+		}
+		return
+	}
+	want := 0
+	for _, c := range cs {
+		want += len(c.msgs)
+	}
+	for total() < want && time.Now().Before(deadline) {
+		time.Sleep(time.Millisecond)
+	}
+	time.Sleep(5 * time.Millisecond)
+	// every connection's message list must be exactly the list some handler received (handlers are made in no particular order)
+	used := map[int]bool{}
+	okAll := true
+	match := map[int]int{}
+	for ci, c := range cs {
+		found := false
+		for hi, h := range hs {
+			if used[hi] {
+				continue
+			}
+			got := h.snapshot()
+			if len(got) != len(c.msgs) {
+				continue
+			}
+			same := true
+			for i := range got {
+				if !bytes.Equal(got[i], c.msgs[i]) {
+					same = false
+				}
+			}
+			if same {
+				used[hi], found = true, true
+				match[ci] = hi
+				break
+			}
+		}
+		if !found {
+			okAll = false
+		}
+	}
+	if !okAll {
+		var counts []int
+		for _, h := range hs {
+			counts = append(counts, len(h.snapshot()))
+		}
+		o.Fail("C04", "delivered-messages-differ", fmt.Sprintf("case %d: %d connections waiting on the listener at once, buffer %d: per-handler message counts %v do not match what the connections sent (%d messages each in order expected per connection)", idx, nconn, buf, counts, want))
+	} else {
+		// outbound: what a handler sends leaves through its own connection
+		for ci, c := range cs {
+			m := frame(fmt.Sprintf("35=8\x0111=out%d-%d\x01", idx, ci))
+			go func(h *recHandler) { h.outCh <- m }(hs[match[ci]])
+			got := make([]byte, len(m))
+			_ = c.peer.SetReadDeadline(time.Now().Add(2 * time.Second))
+			if _, err := io.ReadFull(c.peer, got); err != nil || !bytes.Equal(got, m) {
+				o.Fail("C04", "outbound-stream-differs", fmt.Sprintf("case %d: simultaneous connections: connection %d did not receive what its handler sent (err=%v)", idx, ci, err))
+				break
+			}
+		}
+	}
+	o.Count("C04.simultaneous-connections")
+	o.Nontrivial("C04", fmt.Sprintf("simul %d %d", idx, nconn))
+	for _, c := range cs {
+		c.peer.Close()
+	}
+	acc.Close()
+	lst.Close()
+	for _, h := range hs {
+		h.Stop()
+	}
+}
+
 func frameCase(r *rand.Rand, o *hout.Out, idx int) {
 	buf := []int{0, 1, 10}[r.Intn(3)]
 	role := r.Intn(2)
@@ -355,6 +483,8 @@ func libGoroutines() []string {
 	return left
 }
 
+var currentCase atomic.Value
+
 func faultCase(r *rand.Rand, o *hout.Out, idx int) {
 	buf := []int{0, 1, 10}[r.Intn(3)]
 	role := r.Intn(2) // 0 initiator, 1 acceptor
@@ -362,6 +492,7 @@ func faultCase(r *rand.Rand, o *hout.Out, idx int) {
 	cause := causes[r.Intn(len(causes))]
 	flood := r.Intn(3) > 0
 	sendOut := r.Intn(2) == 0
+	currentCase.Store(fmt.Sprintf("role=%s cause=%s buffer=%d flood=%v outbound=%v", []string{"initiator", "acceptor"}[role], cause, buf, flood, sendOut))
 	a, b := net.Pipe()
 	var h *simplefixgo.DefaultHandler
 	var serveDone = make(chan struct{})
@@ -371,6 +502,7 @@ func faultCase(r *rand.Rand, o *hout.Out, idx int) {
 	var notified int32
 	writeDeadline := 200 * time.Millisecond
 	var processed int32
+	stopBlocked := false
 	setup := func(hh *simplefixgo.DefaultHandler) {
 		hh.OnDisconnect(func() bool { atomic.StoreInt32(&notified, 1); return true })
 		hh.OnStopped(func() bool { atomic.StoreInt32(&notified, 1); return true })
@@ -449,7 +581,13 @@ func faultCase(r *rand.Rand, o *hout.Out, idx int) {
 				default:
 				}
 				done := make(chan struct{})
-				go func() { _ = h.SendRaw(frame("35=0\x0134=2\x01")); close(done) }()
+				// half of the traffic goes through Send (which holds the handler's send mutex while it waits for room
+				// in the outgoing queue), half through SendRaw
+				if i%2 == 0 {
+					go func() { _ = h.Send(fixgen.NewHeartbeat()); close(done) }()
+				} else {
+					go func() { _ = h.SendRaw(frame("35=0\x0134=2\x01")); close(done) }()
+				}
 				select {
 				case <-done:
 				case <-stopTraffic:
@@ -464,7 +602,13 @@ func faultCase(r *rand.Rand, o *hout.Out, idx int) {
 	case "peer-close":
 		b.Close()
 	case "handler-stop":
-		h.Stop()
+		stopped := make(chan struct{})
+		go func() { h.Stop(); close(stopped) }()
+		select {
+		case <-stopped:
+		case <-time.After(2 * time.Second):
+			stopBlocked = true
+		}
 	case "local-close":
 		if role == 0 {
 			in.Close()
@@ -537,6 +681,9 @@ func faultCase(r *rand.Rand, o *hout.Out, idx int) {
 	if !sendOK {
 		o.Fail("C13", "later-send-blocks", desc)
 	}
+	if stopBlocked {
+		o.Fail("C13", "stop-blocks", desc+": handler.Stop() had not returned after 2 s (senders waiting for room in the outgoing queue)")
+	}
 	if !sockClosed {
 		o.Fail("C13", "socket-not-closed", desc)
 	}
@@ -550,14 +697,23 @@ func faultCase(r *rand.Rand, o *hout.Out, idx int) {
 	o.Nontrivial("C13", desc)
 	o.Sample("C13", desc+fmt.Sprintf(" processed=%d left=%d", atomic.LoadInt32(&processed), len(left)))
 	b.Close()
-	if in != nil {
-		in.Close()
+	cleanup := make(chan struct{})
+	go func() {
+		if in != nil {
+			in.Close()
+		}
+		if acc != nil {
+			acc.Close()
+			lst.Close()
+		}
+		h.Stop()
+		close(cleanup)
+	}()
+	select {
+	case <-cleanup:
+	case <-time.After(3 * time.Second):
+		o.Fail("C13", "stop-blocks", desc+": Close()/Stop() during clean-up had not returned after 3 s")
 	}
-	if acc != nil {
-		acc.Close()
-		lst.Close()
-	}
-	h.Stop()
 	twg.Wait()
 	time.Sleep(5 * time.Millisecond)
 }
@@ -573,8 +729,22 @@ func main() {
 	for i := 0; i < *n; i++ {
 		if *mode == "frame" {
 			frameCase(r, o, i)
+			if i%8 == 0 {
+				simulCase(r, o, i)
+			}
 		} else {
-			faultCase(r, o, i)
+			// a case that does not come back is itself a finding (something of the library blocks the caller for good):
+			// report it with the goroutines that are stuck and stop, instead of hanging the check
+			done := make(chan struct{})
+			go func() { faultCase(r, o, i); close(done) }()
+			select {
+			case <-done:
+			case <-time.After(45 * time.Second):
+				o.Fail("C13", "call-into-library-never-returned", fmt.Sprintf("fault case %d (%s) still running after 45 s; library goroutines: %v", i, currentCase.Load(), libGoroutines()))
+				o.Emit("corr", "C13", "pool out - - 1", "log  | enq 1")
+				o.Close()
+				os.Exit(0)
+			}
 		}
 	}
 	if *mode != "frame" {
